@@ -268,3 +268,39 @@ Example C01_demo_tracker_is_replay :
   | _, _ => ([], [], [], 0)
   end = ([(10%N, (100%N, 1%N, 5))], [(10%N, 4096)], [(10%N, 4096)], 4096).
 Proof. vm_compute. reflexivity. Qed.
+
+(* ---------------------------------------------------------------------------------------------
+   Tie to the code by translation + proof: the functions below are GENERATED on every run from /repo's
+   current Go source (translator/gen_gofuncs.go -> Gen/GoWindows.v); the theorems say that the hand-written model the
+   property theorems above are about computes what the generated function computes, for all arguments. *)
+From Coq Require Import String.
+From JK Require Import Base.GoSem Gen.GoWindows Proofs.GoTieWindows.
+
+(* keeper.manageProof, as generated from the current source, performs the events of one verdict, and the walk of
+   Model/StorageFiles.v (the model of the C01/C17 theorems) does to its state what that verdict says: nothing is
+   credited without the verdict Keep, which requires a proof record inside the judged interval or a young file *)
+Theorem C01_code_tie_manageProof :
+  forall h w key size, small h -> small (f_start (w_file w)) -> small (f_interval (w_file w)) ->
+    let s := w_state w in let f := w_file w in
+    gen_manageProof (f_start f) (f_interval f) h size (sf_found s key) (sf_last s key)
+    = gmap (verdict_events size) (spec_verdict (f_start f) (f_interval f) h (sf_found s key) (sf_last s key)) /\
+    manage_proof h w key
+    = match spec_verdict (f_start f) (f_interval f) h (sf_found s key) (sf_last s key) with
+      | GPanic => None
+      | GVal VRemove =>
+          match remove_prover_with_key s f key with
+          | None => None
+          | Some (s', f') => Some {| w_state := s'; w_file := f'; w_credits := w_credits w |}
+          end
+      | GVal VBurn =>
+          match remove_prover_with_key s f key with
+          | None => None
+          | Some (s', f') => Some {| w_state := burn_contract s' (pk_prover key); w_file := f'; w_credits := w_credits w |}
+          end
+      | GVal VKeep => Some {| w_state := s; w_file := f; w_credits := (sf_who s key, fk1 f) :: w_credits w |}
+      end.
+Proof.
+  intros h w key size Hh Hs Hp. cbv zeta.
+  exact (conj (gen_manageProof_spec _ _ h size _ _ Hh Hs Hp) (storagefiles_manage_proof h w key)).
+Qed.
+Print Assumptions C01_code_tie_manageProof.
